@@ -272,6 +272,50 @@ fn has_sibling_duplicates(e: &Element) -> Option<String> {
     None
 }
 
+/// per parent path: (child kinds of anonymous children in document order) of the master
+use autosar_data_specification::ElementType;
+fn master_kinds(n: &ANode, path: &str, out: &mut std::collections::BTreeMap<String, (ElementType, Vec<ElementName>)>) {
+    let here = format!("{path}/{}{}", n.name, n.item_name().map(|x| format!("[{x}]")).unwrap_or_default());
+    let kinds: Vec<ElementName> = n.children().map(|k| k.name).collect();
+    out.entry(here.clone()).or_insert((n.etype, kinds));
+    for k in n.children() {
+        master_kinds(k, &here, out);
+    }
+}
+
+/// Recorded finding KF-C09-3: below a parent whose children are NOT in specification order (legal for repeated
+/// choices such as documentation blocks), the two-pointer merge imports an anonymous element of a later file as new
+/// instead of merging it with the existing one. Returns a description if the merged model shows exactly that.
+fn anonymous_duplicate_out_of_order(master: &ANode, merged: &Element) -> Option<String> {
+    let mut mk = std::collections::BTreeMap::new();
+    master_kinds(master, "", &mut mk);
+    fn walk(e: &Element, path: &str, mk: &std::collections::BTreeMap<String, (ElementType, Vec<ElementName>)>) -> Option<String> {
+        let here = format!("{path}/{}{}", e.element_name(), e.item_name().map(|x| format!("[{x}]")).unwrap_or_default());
+        if let Some((et, kinds)) = mk.get(&here) {
+            let got: Vec<Element> = e.sub_elements().collect();
+            for k in got.iter().filter(|k| !k.is_identifiable()) {
+                let name = k.element_name();
+                let n_got = got.iter().filter(|x| x.element_name() == name).count();
+                let n_master = kinds.iter().filter(|x| **x == name).count();
+                if n_got > n_master {
+                    // are the master's children out of specification order?
+                    let idx: Vec<Vec<usize>> = kinds.iter().filter_map(|n| et.find_sub_element(*n, u32::MAX).map(|x| x.1)).collect();
+                    if idx.windows(2).any(|w| w[0] > w[1]) {
+                        return Some(format!("{here}: {n_got} <{name}> children after the merge, the master has {n_master}; the master's children {:?} are not in specification order", kinds.iter().map(|x| x.to_string()).collect::<Vec<_>>()));
+                    }
+                }
+            }
+        }
+        for k in e.sub_elements() {
+            if let Some(d) = walk(&k, &here, mk) {
+                return Some(d);
+            }
+        }
+        None
+    }
+    walk(merged, "", &mk)
+}
+
 #[derive(Clone, Debug)]
 pub struct MergeCase {
     pub vi: usize,
@@ -388,6 +432,9 @@ pub fn run_case(c: &MergeCase, st: &mut Stats) -> Result<(), Failure> {
         if got != expected {
             if canon_model_r(&m.root_element(), &names, true, true) == expected_relaxed {
                 return Err(fail("merge:order-inside-ordered-splittable-element-not-preserved", format!("load order {:?}: the merged model has all elements and file sets, but the order of the children of an ORDERED splittable element differs from the order in the files", order)));
+            }
+            if let Some(d) = anonymous_duplicate_out_of_order(&master.root, &m.root_element()) {
+                return Err(fail("merge:anonymous-element-duplicated:parent-content-not-in-specification-order", format!("load order {:?}: {d}", order)));
             }
             let without = canon_model(&m.root_element(), &names, false);
             let exp_without = {
